@@ -142,250 +142,6 @@ def _all_ascii(bs):
     return all(0 <= b < 0x80 for b in bs)
 
 
-def _static_of(fn, defs, op, crate):
-    o = common.origin(fn, defs, op)
-    if o["k"] == "const" and "static" in o["op"]:
-        return crate.static_bytes(o["op"]["static"]), o["op"]["static"]
-    return None, None
-
-
-def _classify_bytes_source(fn, defs, idom, crate, op, blk, depth=0):
-    """Return (ok, description) for a byte-slice / byte operand that is written to a sink."""
-    if depth > 6:
-        return False, "too deep"
-    o = common.origin(fn, defs, op)
-    k = o["k"]
-    if k == "const":
-        c = o["op"]
-        if "bytes" in c:
-            return _all_ascii(c["bytes"]), "constant %r" % bytes(c["bytes"][:12])
-        if "int" in c:
-            v = common.const_int(c)
-            return 0 <= v < 0x80, "constant byte %d" % v
-        if "static" in c:
-            sb = crate.static_bytes(c["static"])
-            return sb is not None and _all_ascii(sb), "static %s" % c["static"]
-        return False, "unknown constant"
-    if k == "multi":
-        oks = []
-        for (b, si, d) in defs.get(o["l"], []):
-            if si == "term":
-                return False, "call-defined alternative"
-            if d["k"] == "use":
-                oks.append(_classify_bytes_source(fn, defs, idom, crate, d["op"], b, depth + 1))
-            elif d["k"] == "cast":
-                oks.append(_classify_bytes_source(fn, defs, idom, crate, d["op"], b, depth + 1))
-            elif d["k"] in ("ref",) and (not d["pl"]["p"] or d["pl"]["p"] == ["*"]):
-                oks.append(_classify_bytes_source(fn, defs, idom, crate, {"c": "copy", "pl": {"l": d["pl"]["l"], "p": []}}, b, depth + 1))
-            else:
-                return False, "unrecognised alternative"
-        return all(x[0] for x in oks) and bool(oks), "one of: " + "; ".join(x[1] for x in oks)
-    if k == "call":
-        t = o["t"]
-        p = t["callee"].get("path", "")
-        if p.endswith("<impl str>::as_bytes") or p.endswith("String::as_bytes"):
-            return True, "str::as_bytes of a &str"
-        if t["callee"].get("trait") in ("std::ops::Index",):
-            sb, name = _static_of(fn, defs, t["args"][0], crate)
-            if sb is not None:
-                return _all_ascii(sb), "sub-slice of all-ASCII static %s" % name
-        # a local helper returning a byte slice (`self.bool_text(v)`): every value it can return must qualify
-        tgt = crate.fn(t["callee"].get("resolved") or p) if t["callee"].get("resolved_crate", t["callee"].get("crate")) == crate.name else None
-        if tgt is not None and tgt is not fn and depth < 4 and tgt.local_ty(0).replace("&'static ", "&") in ("&[u8]", "&str"):
-            okr, dr = _classify_bytes_source(tgt, common.defs_of(tgt), cfg.dominators(tgt), crate,
-                                             {"c": "copy", "pl": {"l": 0, "p": []}}, 0, depth + 2)
-            return okr, "every return value of %s (%s)" % (p.rsplit("::", 1)[-1], dr)
-        return False, "result of %s" % p
-    if k == "agg":
-        rv = o["rv"]
-        if rv.get("agg") == "array":
-            descs = []
-            for f in rv["fields"]:
-                okf, d = _classify_elem(fn, defs, idom, crate, f, blk)
-                if not okf:
-                    return False, "array element: " + d
-                descs.append(d)
-            return True, "array [" + ", ".join(descs) + "]"
-        return False, "aggregate"
-    if k == "place":
-        # a component of a tuple of slices chosen by a match: `let (first, second) = match .. { .. => (b":", name) }`
-        pl = o["pl"]
-        if len(pl["p"]) == 1 and isinstance(pl["p"][0], dict) and "f" in pl["p"][0] and "adt" not in pl["p"][0]:
-            i = pl["p"][0]["f"]
-            ds = defs.get(pl["l"], [])
-            if ds and all(si != "term" and d["k"] == "agg" and "adt" not in d and len(d["fields"]) > i for (_b, si, d) in ds):
-                res = [_classify_bytes_source(fn, defs, idom, crate, d["fields"][i], b, depth + 1) for (b, _si, d) in ds]
-                return all(x[0] for x in res), "one of: " + "; ".join(x[1] for x in res)
-        return False, "place"
-    return False, k
-
-
-def _classify_elem(fn, defs, idom, crate, op, blk):
-    c = common.const_int(op)
-    if c is not None:
-        return 0 <= c < 0x80, "0x%02X" % c
-    o = common.origin(fn, defs, op)
-    if o["k"] == "place":
-        pl = o["pl"]
-        # the item of `for x in [a, b, c]`: every element of the iterated array must qualify
-        ds = defs.get(pl["l"], [])
-        if len(ds) == 1 and ds[0][1] == "term" and "std::iter::Iterator::next" in F.callee_names(ds[0][2]) \
-                and any(isinstance(e, dict) and e.get("n") == "Some" for e in pl["p"]):
-            it = common.origin(fn, defs, ds[0][2]["args"][0])
-            if it["k"] == "place" and not [e for e in it["pl"]["p"] if e != "*"]:
-                it = common.origin(fn, defs, {"c": "copy", "pl": {"l": it["pl"]["l"], "p": []}})
-            if it["k"] == "call" and "std::iter::IntoIterator::into_iter" in F.callee_names(it["t"]):
-                arr = common.origin(fn, defs, it["t"]["args"][0])
-                if arr["k"] == "agg" and arr["rv"].get("agg") == "array":
-                    res = [_classify_elem(fn, defs, idom, crate, f, blk) for f in arr["rv"]["fields"]]
-                    return all(x[0] for x in res), "item of [" + ", ".join(x[1] for x in res) + "]"
-        # STATIC[idx]
-        base = {"c": "copy", "pl": {"l": pl["l"], "p": []}}
-        sb, name = _static_of(fn, defs, base, crate)
-        if sb is not None and any(isinstance(e, dict) and "i" in e for e in pl["p"]):
-            return _all_ascii(sb), "%s[..]" % name.rsplit("::", 1)[-1]
-    if o["k"] == "other" and o["rv"] and o["rv"].get("k") == "cast" and o["rv"]["ck"].startswith("IntToInt"):
-        # `n as u8` must be dominated by a range test that keeps it ASCII
-        src = o["rv"]["op"]
-        g = _ascii_range_guard(fn, defs, idom, src, blk)
-        if g:
-            return True, "`as u8` under %s" % g
-        return False, "`as u8` of an unguarded value"
-    if o["k"] == "param" and fn.local_ty(o["l"]) == "u8":
-        return False, "u8 parameter"
-    # computed digit / letter: `b'0' + (octet >> 3 & 7)` - a sound upper bound below 0x80 keeps it ASCII
-    from .. import panics
-    ub = panics.upper_bound(fn, defs, op, 0)
-    if ub is not None and ub < 0x80:
-        return True, "value bounded by %d" % ub
-    return False, o["k"]
-
-
-def _ascii_range_guard(fn, defs, idom, src, blk):
-    """Is `blk` dominated by the true edge of `(lo..hi).contains(&src)` with hi <= 128 ?"""
-    skey = _root_local(fn, defs, src)
-    for bi, b in enumerate(fn.blocks):
-        t = b["term"]
-        if t["k"] != "call" or b.get("cleanup"):
-            continue
-        p = t["callee"].get("path", "")
-        if not (p.endswith("Range::<Idx>::contains") or p.endswith("RangeInclusive::<Idx>::contains")):
-            continue
-        # range operand
-        ro = common.origin(fn, defs, t["args"][0])
-        lo = hi = None
-        if ro["k"] == "const" and "struct" in ro["op"] and "Range" in ro["op"].get("ty", ""):
-            fv = {x["n"]: int(x["v"]) for x in ro["op"]["struct"]}
-            if "start" in fv and "end" in fv:
-                lo, hi = fv["start"], fv["end"] + (1 if "RangeInclusive" in ro["op"]["ty"] else 0)
-        elif ro["k"] == "const" and "bytes" in ro["op"] and "Range<" in ro["op"].get("ty", ""):
-            bs = ro["op"]["bytes"]
-            w = len(bs) // 2
-            if w in (1, 2, 4, 8):
-                lo = int.from_bytes(bytes(bs[:w]), "little")
-                hi = int.from_bytes(bytes(bs[w:2 * w]), "little")
-                if "RangeInclusive" in ro["op"]["ty"]:
-                    hi += 1
-        elif ro["k"] == "agg" and len(ro["rv"]["fields"]) >= 2:
-            lo, hi = common.const_int(ro["rv"]["fields"][0]), common.const_int(ro["rv"]["fields"][1])
-        elif ro["k"] == "call" and ro["t"]["callee"].get("path", "").endswith("RangeInclusive::<Idx>::new"):
-            lo, hi = common.const_int(ro["t"]["args"][0]), common.const_int(ro["t"]["args"][1])
-            if hi is not None:
-                hi += 1
-        if lo is None or hi is None or lo < 0 or hi > 128:
-            continue
-        xo = common.origin(fn, defs, t["args"][1])
-        xl = None
-        if xo["k"] == "place":
-            continue
-        xk = _root_local(fn, defs, t["args"][1])
-        if xk is None or xk != skey:
-            continue
-        # the bool result is switched on in the continuation block
-        nb = t.get("t")
-        if nb is None:
-            continue
-        tt = fn.blocks[nb]["term"]
-        if tt["k"] != "switch":
-            continue
-        true_t = tt["otherwise"]
-        for v, tg in tt["targets"]:
-            if v == 1:
-                true_t = tg
-        false_t = [tg for v, tg in tt["targets"] if v == 0]
-        if false_t and false_t[0] == true_t:
-            continue
-        if cfg.dominates(idom, true_t, blk) and all(pp == nb for pp in fn.pred_map()[true_t]):
-            return "(%d..%d).contains(&n) at line %s" % (lo, hi, t.get("line"))
-    return _compare_guard(fn, defs, idom, skey, blk)
-
-
-def _compare_guard(fn, defs, idom, skey, blk):
-    """Is `blk` dominated by a branch edge on which `src <= K` / `src < K` with K < 128 is known
-    (range patterns `32..=126 =>` and `if n < 127` lower to such compares; literal patterns to a switch on src)?"""
-    if skey is None:
-        return None
-    preds = fn.pred_map()
-    for bi, b in enumerate(fn.blocks):
-        t = b["term"]
-        if t["k"] != "switch" or b.get("cleanup"):
-            continue
-        op = t["op"]
-        if op.get("c") not in ("copy", "move"):
-            continue
-        # match on literal values of src itself
-        if _root_local(fn, defs, op) == skey and not op["pl"]["p"]:
-            by_t = {}
-            for v, tg in t["targets"]:
-                by_t.setdefault(tg, []).append(v)
-            for tg, vs in by_t.items():
-                if tg != t["otherwise"] and all(0 <= v < 128 for v in vs) and cfg.dominates(idom, tg, blk) \
-                        and all(pp == bi for pp in preds[tg]):
-                    return "match arm for the values %s at line %s" % (sorted(vs)[:4], t.get("line"))
-            continue
-        if op["pl"]["p"]:
-            continue
-        ds = [d for d in defs.get(op["pl"]["l"], []) if d[0] == bi and d[1] != "term"]
-        if len(ds) != 1 or ds[0][2]["k"] != "bin":
-            continue
-        rv = ds[0][2]
-        a, b2, o = rv["a"], rv["b"], rv["op"]
-        ka, kb = common.const_int(a), common.const_int(b2)
-        bound_true = bound_false = None      # exclusive upper bound of src known on the true / false edge
-        if kb is not None and _root_local(fn, defs, a) == skey:
-            bound_true = {"Le": kb + 1, "Lt": kb}.get(o)
-            bound_false = {"Gt": kb + 1, "Ge": kb}.get(o)
-        elif ka is not None and _root_local(fn, defs, b2) == skey:
-            bound_true = {"Ge": ka + 1, "Gt": ka}.get(o)
-            bound_false = {"Lt": ka + 1, "Le": ka}.get(o)
-        true_t = t["otherwise"]
-        false_t = t["otherwise"]
-        for v, tg in t["targets"]:
-            if v == 1:
-                true_t = tg
-            if v == 0:
-                false_t = tg
-        if true_t == false_t:
-            continue
-        for bound, edge in ((bound_true, true_t), (bound_false, false_t)):
-            if bound is not None and bound <= 128 and cfg.dominates(idom, edge, blk) and all(pp == bi for pp in preds[edge]):
-                return "`n < %d` known from the compare at line %s" % (bound, t.get("line"))
-    return None
-
-
-def _root_local(fn, defs, op):
-    o = common.origin(fn, defs, op)
-    if o["k"] == "param":
-        return ("param", o["l"])
-    if o["k"] == "call":
-        return ("call", o["block"])
-    if o["k"] == "multi":
-        return ("local", o["l"])
-    if o["k"] == "other" and o["rv"] is not None and o["rv"].get("k") == "cast":
-        return _root_local(fn, defs, o["rv"]["op"])
-    return None
-
-
 def print_utf8(ctx, lexpr):
     """Every byte handed to the sink by print.rs is ASCII or part of a str: decided by abstract evaluation of each
     entry point of the printer (Formatter methods, public functions, closures, helpers without local callers) with
@@ -582,46 +338,6 @@ def print_utf8(ctx, lexpr):
             r.violation(g.path, "write_all-uncovered",
                         "the write at line %s of %s is not reached by the evaluation of any printer entry point; its bytes "
                         "are not established" % (t.get("line"), g.path), g.loc(t.get("line")))
-    r.floor("sink-writes", n)
-
-
-def print_utf8_defuse(ctx, lexpr):
-    r = ctx.rule("R-PRINT-UTF8/defuse", "every byte source of the printer is ASCII or the bytes of a &str")
-    n = 0
-    fwd = common.sink_forwarders(lexpr)
-    for fn in lexpr.fns:
-        if not common.in_file(fn, "lexpr/src/print.rs"):
-            continue
-        defs = None
-        idom = None
-        if fn.path in fwd:
-            continue        # its single write_all is accounted for at each of its call sites
-        for bi, t in fn.calls():
-            c = t["callee"]
-            via = fwd.get(c.get("resolved") or c.get("path"))
-            if c.get("trait") != "std::io::Write" and via is None:
-                continue
-            m = "write_all" if via is not None else c.get("method")
-            if m == "write_all":
-                n += 1
-                if defs is None:
-                    defs = common.defs_of(fn)
-                    idom = cfg.dominators(fn)
-                okb, desc = _classify_bytes_source(fn, defs, idom, lexpr, t["args"][via - 1 if via is not None else 1], bi)
-                if okb:
-                    r.ok("%s: write_all(%s)" % (fn.path, desc), fn, t.get("line"))
-                else:
-                    r.violation(fn.path, "write_all-source",
-                                "%s writes bytes that are not provably UTF-8 (%s); they end up in the String returned "
-                                "by to_string via String::from_utf8_unchecked" % (fn.path, desc), fn.loc(t.get("line")))
-            elif m == "write_fmt":
-                n += 1
-                r.ok("%s: write! - core::fmt only ever emits &str fragments (literal pieces are Rust string literals, "
-                     "arguments are written through fmt::Write::write_str), so the bytes are whole UTF-8" % fn.path,
-                     fn, t.get("line"))
-            elif m == "write":
-                if not (fn.impl_trait == "std::io::Write"):
-                    r.violation(fn.path, "raw-write", "%s calls io::Write::write directly" % fn.path, fn.loc(t.get("line")))
     r.floor("sink-writes", n)
 
 
